@@ -92,12 +92,13 @@ DESIGN_INVS = ["NoCrash", "NoLostTopic", "LockInv", "NoLeakedPublisher", "TopicA
 def design_configs(tier):
     q = [
         ("es-2c-1r-2e", dict(NClients=2, Rounds=1, MaxEvents=2), 16),
-        ("es-1c-3r-2e", dict(NClients=1, Rounds=3, MaxEvents=2), 16),
+        ("es-1c-3r-1e", dict(NClients=1, Rounds=3, MaxEvents=1), 16),
         ("api-1c", dict(NClients=1, Rounds=1, MaxEvents=1, Api="TRUE", MaxPolls=1, MaxTicks=1, MaxFires=1, NTopics=2, SpinTopics="{2}"), 16),
         ("indexer", dict(NClients=0, MaxEvents=0, WithIndexer="TRUE", MaxHeaders=3), 16),
     ]
     if tier == "thorough":
         q += [
+            ("es-1c-3r-2e", dict(NClients=1, Rounds=3, MaxEvents=2), 16),
             ("es-2c-1r-2t", dict(NClients=2, Rounds=1, MaxEvents=1, NTopics=2), 16),
             ("api-1c-2r", dict(NClients=1, Rounds=2, MaxEvents=0, Api="TRUE", MaxPolls=1, MaxTicks=1, MaxFires=1, NTopics=2, SpinTopics="{2}"), 16),
             ("es-3c-1r-1e", dict(NClients=3, Rounds=1, MaxEvents=1), 16),
@@ -228,10 +229,13 @@ def judge_full(d, known):
     if r["inv"] == "LockInv":
         return "reject", "LockInv at line %s" % r["inv_line"], r
     if r["inv"] == "NoLostTopic":
-        r2 = judge(d, known, drop_invs=("NoLostTopic", "RealNoCrash"))
-        if r2["consumed"] < r2["total"]:
-            return "reject", "line %d" % (r2["consumed"] + 1), r2
-        r["crashed"] = r2["crashed"]
+        r2 = judge(d, known, drop_invs=("NoLostTopic",))
+        if r2["inv"] == "RealNoCrash":  # lost a subscription on the way AND crashed at the end: the crash is the outcome
+            r2["dev_used"] = sorted(set(r2["dev_used"]) | set(r["dev_used"]))
+            return "crash", r2["crashed"], r2
+        if r2["inv"] or r2["consumed"] < r2["total"]:
+            return "reject", "%s line %d" % (r2["inv"] or "", r2["consumed"] + 1), r2
+        r["dev_used"] = sorted(set(r2["dev_used"]) | set(r["dev_used"]))
         return "lost", "line %s" % r["inv_line"], r
     if r["consumed"] < r["total"]:
         return "reject", "line %d" % (r["consumed"] + 1), r
